@@ -415,7 +415,7 @@ func (p *parser) parseLit() Expr {
 func ParseFile(src string) (f *File, err error) {
 	toks, lerr := Lex(src)
 	if lerr != nil {
-		return nil, lerr
+		return &File{Defs: map[string]*Sentence{}}, lerr // never nil: callers may look at Bad / Order
 	}
 	f = &File{Defs: map[string]*Sentence{}}
 	start := 0
